@@ -354,45 +354,45 @@
     pair_all!(laws_bool_bool, mk_kinds(2, 2), 2);
 //# ob name=laws_bool_bool_hash fn="impl Ord/PartialEq/Hash for Value" kind=complete stmt="bool x bool: equal values hash identically"
     pair_hash!(laws_bool_bool_hash, mk_kinds(2, 2));
-//# ob name=laws_undef_none_cmp_ab role=disabled fn="impl Ord/PartialEq/Hash for Value" kind=complete tier=thorough stmt="undef x none: ordered by kind only and never equal (cmp_ab)"
+//# ob name=laws_undef_none_cmp_ab fn="impl Ord/PartialEq/Hash for Value" kind=complete stmt="undef x none: ordered by kind only and never equal (cmp_ab)"
     pair_one!(laws_undef_none_cmp_ab, mk_kinds(0, 1), 0);
-//# ob name=laws_undef_none_cmp_ba role=disabled fn="impl Ord/PartialEq/Hash for Value" kind=complete tier=thorough stmt="undef x none: ordered by kind only and never equal (cmp_ba)"
+//# ob name=laws_undef_none_cmp_ba fn="impl Ord/PartialEq/Hash for Value" kind=complete stmt="undef x none: ordered by kind only and never equal (cmp_ba)"
     pair_one!(laws_undef_none_cmp_ba, mk_kinds(0, 1), 1);
-//# ob name=laws_undef_none_eq_ab role=disabled fn="impl Ord/PartialEq/Hash for Value" kind=complete tier=thorough stmt="undef x none: ordered by kind only and never equal (eq_ab)"
+//# ob name=laws_undef_none_eq_ab fn="impl Ord/PartialEq/Hash for Value" kind=complete stmt="undef x none: ordered by kind only and never equal (eq_ab)"
     pair_one!(laws_undef_none_eq_ab, mk_kinds(0, 1), 2);
-//# ob name=laws_undef_none_eq_ba role=disabled fn="impl Ord/PartialEq/Hash for Value" kind=complete tier=thorough stmt="undef x none: ordered by kind only and never equal (eq_ba)"
+//# ob name=laws_undef_none_eq_ba fn="impl Ord/PartialEq/Hash for Value" kind=complete stmt="undef x none: ordered by kind only and never equal (eq_ba)"
     pair_one!(laws_undef_none_eq_ba, mk_kinds(0, 1), 3);
-//# ob name=laws_none_bool_cmp_ab role=disabled fn="impl Ord/PartialEq/Hash for Value" kind=complete tier=thorough stmt="none x bool: ordered by kind only and never equal (cmp_ab)"
+//# ob name=laws_none_bool_cmp_ab fn="impl Ord/PartialEq/Hash for Value" kind=complete stmt="none x bool: ordered by kind only and never equal (cmp_ab)"
     pair_one!(laws_none_bool_cmp_ab, mk_kinds(1, 2), 0);
-//# ob name=laws_none_bool_cmp_ba role=disabled fn="impl Ord/PartialEq/Hash for Value" kind=complete tier=thorough stmt="none x bool: ordered by kind only and never equal (cmp_ba)"
+//# ob name=laws_none_bool_cmp_ba fn="impl Ord/PartialEq/Hash for Value" kind=complete stmt="none x bool: ordered by kind only and never equal (cmp_ba)"
     pair_one!(laws_none_bool_cmp_ba, mk_kinds(1, 2), 1);
-//# ob name=laws_none_bool_eq_ab role=disabled fn="impl Ord/PartialEq/Hash for Value" kind=complete tier=thorough stmt="none x bool: ordered by kind only and never equal (eq_ab)"
+//# ob name=laws_none_bool_eq_ab fn="impl Ord/PartialEq/Hash for Value" kind=complete stmt="none x bool: ordered by kind only and never equal (eq_ab)"
     pair_one!(laws_none_bool_eq_ab, mk_kinds(1, 2), 2);
-//# ob name=laws_none_bool_eq_ba role=disabled fn="impl Ord/PartialEq/Hash for Value" kind=complete tier=thorough stmt="none x bool: ordered by kind only and never equal (eq_ba)"
+//# ob name=laws_none_bool_eq_ba fn="impl Ord/PartialEq/Hash for Value" kind=complete stmt="none x bool: ordered by kind only and never equal (eq_ba)"
     pair_one!(laws_none_bool_eq_ba, mk_kinds(1, 2), 3);
-//# ob name=laws_none_num_cmp_ab role=disabled fn="impl Ord/PartialEq/Hash for Value" kind=complete tier=thorough stmt="none x num: ordered by kind only and never equal (cmp_ab)"
+//# ob name=laws_none_num_cmp_ab fn="impl Ord/PartialEq/Hash for Value" kind=complete stmt="none x num: ordered by kind only and never equal (cmp_ab)"
     pair_one!(laws_none_num_cmp_ab, mk_kinds(1, 3), 0);
-//# ob name=laws_none_num_cmp_ba role=disabled fn="impl Ord/PartialEq/Hash for Value" kind=complete tier=thorough stmt="none x num: ordered by kind only and never equal (cmp_ba)"
+//# ob name=laws_none_num_cmp_ba fn="impl Ord/PartialEq/Hash for Value" kind=complete stmt="none x num: ordered by kind only and never equal (cmp_ba)"
     pair_one!(laws_none_num_cmp_ba, mk_kinds(1, 3), 1);
-//# ob name=laws_none_num_eq_ab role=disabled fn="impl Ord/PartialEq/Hash for Value" kind=complete tier=thorough stmt="none x num: ordered by kind only and never equal (eq_ab)"
+//# ob name=laws_none_num_eq_ab fn="impl Ord/PartialEq/Hash for Value" kind=complete stmt="none x num: ordered by kind only and never equal (eq_ab)"
     pair_one!(laws_none_num_eq_ab, mk_kinds(1, 3), 2);
-//# ob name=laws_none_num_eq_ba role=disabled fn="impl Ord/PartialEq/Hash for Value" kind=complete tier=thorough stmt="none x num: ordered by kind only and never equal (eq_ba)"
+//# ob name=laws_none_num_eq_ba fn="impl Ord/PartialEq/Hash for Value" kind=complete stmt="none x num: ordered by kind only and never equal (eq_ba)"
     pair_one!(laws_none_num_eq_ba, mk_kinds(1, 3), 3);
-//# ob name=laws_undef_num_cmp_ab role=disabled fn="impl Ord/PartialEq/Hash for Value" kind=complete tier=thorough stmt="undef x num: ordered by kind only and never equal (cmp_ab)"
+//# ob name=laws_undef_num_cmp_ab fn="impl Ord/PartialEq/Hash for Value" kind=complete stmt="undef x num: ordered by kind only and never equal (cmp_ab)"
     pair_one!(laws_undef_num_cmp_ab, mk_kinds(0, 3), 0);
-//# ob name=laws_undef_num_cmp_ba role=disabled fn="impl Ord/PartialEq/Hash for Value" kind=complete tier=thorough stmt="undef x num: ordered by kind only and never equal (cmp_ba)"
+//# ob name=laws_undef_num_cmp_ba fn="impl Ord/PartialEq/Hash for Value" kind=complete stmt="undef x num: ordered by kind only and never equal (cmp_ba)"
     pair_one!(laws_undef_num_cmp_ba, mk_kinds(0, 3), 1);
-//# ob name=laws_undef_num_eq_ab role=disabled fn="impl Ord/PartialEq/Hash for Value" kind=complete tier=thorough stmt="undef x num: ordered by kind only and never equal (eq_ab)"
+//# ob name=laws_undef_num_eq_ab fn="impl Ord/PartialEq/Hash for Value" kind=complete stmt="undef x num: ordered by kind only and never equal (eq_ab)"
     pair_one!(laws_undef_num_eq_ab, mk_kinds(0, 3), 2);
-//# ob name=laws_undef_num_eq_ba role=disabled fn="impl Ord/PartialEq/Hash for Value" kind=complete tier=thorough stmt="undef x num: ordered by kind only and never equal (eq_ba)"
+//# ob name=laws_undef_num_eq_ba fn="impl Ord/PartialEq/Hash for Value" kind=complete stmt="undef x num: ordered by kind only and never equal (eq_ba)"
     pair_one!(laws_undef_num_eq_ba, mk_kinds(0, 3), 3);
-//# ob name=laws_undef_bool_cmp_ab role=disabled fn="impl Ord/PartialEq/Hash for Value" kind=complete tier=thorough stmt="undef x bool: ordered by kind only and never equal (cmp_ab)"
+//# ob name=laws_undef_bool_cmp_ab fn="impl Ord/PartialEq/Hash for Value" kind=complete stmt="undef x bool: ordered by kind only and never equal (cmp_ab)"
     pair_one!(laws_undef_bool_cmp_ab, mk_kinds(0, 2), 0);
-//# ob name=laws_undef_bool_cmp_ba role=disabled fn="impl Ord/PartialEq/Hash for Value" kind=complete tier=thorough stmt="undef x bool: ordered by kind only and never equal (cmp_ba)"
+//# ob name=laws_undef_bool_cmp_ba fn="impl Ord/PartialEq/Hash for Value" kind=complete stmt="undef x bool: ordered by kind only and never equal (cmp_ba)"
     pair_one!(laws_undef_bool_cmp_ba, mk_kinds(0, 2), 1);
-//# ob name=laws_undef_bool_eq_ab role=disabled fn="impl Ord/PartialEq/Hash for Value" kind=complete tier=thorough stmt="undef x bool: ordered by kind only and never equal (eq_ab)"
+//# ob name=laws_undef_bool_eq_ab fn="impl Ord/PartialEq/Hash for Value" kind=complete stmt="undef x bool: ordered by kind only and never equal (eq_ab)"
     pair_one!(laws_undef_bool_eq_ab, mk_kinds(0, 2), 2);
-//# ob name=laws_undef_bool_eq_ba role=disabled fn="impl Ord/PartialEq/Hash for Value" kind=complete tier=thorough stmt="undef x bool: ordered by kind only and never equal (eq_ba)"
+//# ob name=laws_undef_bool_eq_ba fn="impl Ord/PartialEq/Hash for Value" kind=complete stmt="undef x bool: ordered by kind only and never equal (eq_ba)"
     pair_one!(laws_undef_bool_eq_ba, mk_kinds(0, 2), 3);
 
     // ---- strings (small strings, all UTF-8 strings of <= 2 bytes) and number-vs-string
